@@ -439,6 +439,28 @@ def mapOpt {α β} (f : α → Option β) : List α → Option (List β)
       | none => none
       | some bs => some (b :: bs)
 
+/-! ### semantics of a `linalg.generic` body (reference for `encode`) -/
+
+def lookupV {V : Type} (inp res : List V) : KSrc → Option V
+  | .arg i => inp[i]?
+  | .res j => res[j]?
+
+def evalOps {V : Type} (sem : OpCode → List V → V) (inp : List V) : List KOp → List V → Option (List V)
+  | [], res => some res
+  | o :: r, res => match mapOpt (lookupV inp res) o.operands with
+    | none => none
+    | some vs => evalOps sem inp r (res ++ [sem o.name vs])
+
+/-- value of the body on the values `inp` of ALL its block arguments -/
+def KBody.eval {V : Type} (sem : OpCode → List V → V) (b : KBody) (inp : List V) : Option V :=
+  match evalOps sem inp b.ops [] with
+  | none => none
+  | some res => lookupV inp res b.yld
+
+/-- the data ports of the encoded kernel: the block arguments that are used, in order -/
+def KBody.usedInputs {V : Type} (b : KBody) (inp : List V) : List V :=
+  ((List.range b.argTys.length).filter b.argUsed).filterMap (inp[·]?)
+
 /-- executable evaluator (fuel = maximal depth): the value of a source under the switch valuation `swv`,
 data inputs `inp` and operation semantics `sem` -/
 def evalF {V : Type} (sem : OpCode → List V → V) (A : PE) (swv : Nat → Nat) (inp : List V) : Nat → Src → Option V
@@ -521,5 +543,43 @@ def coversNode (A : PE) (k : Node) : Bool :=
 /-- every operation of every choose op of `K` is offered by the choose op of `A` with the same name
 (what merging `K` into `A` establishes) -/
 def covers (A K : PE) : Bool := K.nodes.all (coversNode A)
+
+/-! ### `PEOp.from_operations` -/
+
+def checkOpsTys (tys0 : List Ty) (res0 : Ty) : List (OpCode × List Ty × Ty) → Except Err Unit
+  | [] => .ok ()
+  | (_, tys, res) :: r => match checkTys tys0 tys with
+    | .error e => .error e
+    | .ok () => match checkTys [res0] [res] with
+      | .error e => .error e
+      | .ok () => checkOpsTys tys0 res0 r
+
+/-- `PEOp.from_operations`: one choose op `"0"` offering all the operations; its data operands are the data
+ports, one per operand position of the operations (operand `i` of every operation reads port `i`: F09) -/
+def peFromOperations : List (OpCode × List Ty × Ty) → Except Err PE
+  | [] => .error .indexError
+  | (n0, tys0, res0) :: r => match checkOpsTys tys0 res0 r with
+    | .error e => .error e
+    | .ok () => .ok { argTys := tys0,
+                      nodes := [⟨"0", n0 :: r.map (·.1), (List.range tys0.length).map Src.arg, 0, res0⟩],
+                      yld := .node 0, switches := [.choose 0] }
+
+/-- every choose switch has its choose op (the switch block argument has a user) -/
+def swTargetsOk (A : PE) : Bool :=
+  A.switches.all fun u => match u with
+    | .choose j => (A.nodes[j]?).isSome
+    | .mux => true
+
+def srcRefOk (A : PE) : Src → Bool
+  | .node j => (A.nodes[j]?).isSome
+  | .arg _ => true
+  | .mux _ l r => srcRefOk A l && srcRefOk A r
+
+/-- every operand that names a choose op names one of this graph -/
+def PE.refsOk (A : PE) : Bool := A.nodes.all (fun n => n.operands.all (srcRefOk A)) && srcRefOk A A.yld
+
+/-- a kernel as `convert_generic_body_to_phs` produces it: structurally well-formed, concrete, every switch
+and every operand refers to a choose op of the kernel -/
+def PE.kwf (K : PE) : Bool := K.wf && K.isConcrete && swTargetsOk K && K.refsOk
 
 end SnaxVerif.Phs
